@@ -354,29 +354,37 @@ for s_i in range(nsetups):
             run_path("traced", path, rg, couplant, block, freq, width, laws3, rays, replay, sw_some)
         chk.count(family="traced", path=name)
         nontrivial.add(("traced", s_i, name))
-    # ray_weights_for_views: same arrays, under the right path, scattering angle = signed_inc_angle(-1)
-    sw = SWITCHES[int(rng.integers(0, 16))]
-    rw = bim.ray_weights_for_views(views, freq, width, use_directivity=sw[0], use_transrefl=sw[1], use_beamspread=sw[2],
-                                   use_attenuation=sw[3], save_debug=True)
-    tx_paths = {v.tx_path for v in views.values()}
-    rx_paths = {v.rx_path for v in views.values()}
-    if set(rw.tx_ray_weights_dict) != tx_paths or set(rw.rx_ray_weights_dict) != rx_paths:
-        chk.violation("views:keys", "ray_weights_for_views does not hold exactly the tx / rx paths of the views", dict(setup=s_i))
-    for name, path in paths.items():
-        rg = arim.ray.RayGeometry.from_path(path)
-        for side, dct, dbg, fn in (("tx", rw.tx_ray_weights_dict, rw.tx_ray_weights_debug_dict, bim.tx_ray_weights),
-                                   ("rx", rw.rx_ray_weights_dict, rw.rx_ray_weights_debug_dict, bim.rx_ray_weights)):
-            if path not in dct:
-                continue
-            ref = call_weights(fn, path, rg, freq, width, sw)
-            evaluations += 1
-            if isinstance(ref, Exception) or not np.array_equal(ref[0], dct[path], equal_nan=True) or \
-                    any(not np.array_equal(np.asarray(ref[1][k]), np.asarray(dbg[path][k]), equal_nan=True) for k in FACTORS):
-                chk.violation(f"views:{side}", f"ray_weights_for_views: {side} weights of path {name} are not {side}_ray_weights(path)",
-                              dict(setup=s_i, path=name, switches=sw, frequency=freq, width=width))
-        if path in rw.scattering_angles_dict:
-            if not np.array_equal(rw.scattering_angles_dict[path], rg.signed_inc_angle(-1), equal_nan=True):
-                chk.violation("views:scat-angle", f"scattering angles of path {name} are not signed_inc_angle(-1)", dict(setup=s_i, path=name))
+    # ray_weights_for_views: same arrays, under the right path, scattering angle = signed_inc_angle(-1);
+    # stage 2 is a HISTORY on the same Path / View objects: block velocities updated in place (a calibration
+    # loop), rays traced again, ray weights asked again -> they must be those of the NEW rays
+    for stage in (1, 2):
+        if stage == 2:
+            block.longitudinal_vel = block.longitudinal_vel * float(rng.uniform(1.03, 1.12))
+            block.transverse_vel = block.transverse_vel * float(rng.uniform(0.90, 0.97))
+            arim.ray.ray_tracing_for_paths(list(paths.values()))
+            chk.count(history='views re-traced after a velocity update')
+        sw = SWITCHES[int(rng.integers(0, 16))]
+        rw = bim.ray_weights_for_views(views, freq, width, use_directivity=sw[0], use_transrefl=sw[1], use_beamspread=sw[2],
+                                       use_attenuation=sw[3], save_debug=True)
+        tx_paths = {v.tx_path for v in views.values()}
+        rx_paths = {v.rx_path for v in views.values()}
+        if set(rw.tx_ray_weights_dict) != tx_paths or set(rw.rx_ray_weights_dict) != rx_paths:
+            chk.violation("views:keys", "ray_weights_for_views does not hold exactly the tx / rx paths of the views", dict(setup=s_i, stage=stage))
+        for name, path in paths.items():
+            rg = arim.ray.RayGeometry.from_path(path)
+            for side, dct, dbg, fn in (("tx", rw.tx_ray_weights_dict, rw.tx_ray_weights_debug_dict, bim.tx_ray_weights),
+                                       ("rx", rw.rx_ray_weights_dict, rw.rx_ray_weights_debug_dict, bim.rx_ray_weights)):
+                if path not in dct:
+                    continue
+                ref = call_weights(fn, path, rg, freq, width, sw)
+                evaluations += 1
+                if isinstance(ref, Exception) or not np.array_equal(ref[0], dct[path], equal_nan=True) or \
+                        any(not np.array_equal(np.asarray(ref[1][k]), np.asarray(dbg[path][k]), equal_nan=True) for k in FACTORS):
+                    chk.violation(f"views:{side}", f"ray_weights_for_views: {side} weights of path {name} are not {side}_ray_weights(path)",
+                                  dict(setup=s_i, stage=stage, path=name, switches=sw, frequency=freq, width=width, note="stage 2 = same views after block velocities were updated in place and rays traced again"))
+            if path in rw.scattering_angles_dict:
+                if not np.array_equal(rw.scattering_angles_dict[path], rg.signed_inc_angle(-1), equal_nan=True):
+                    chk.violation("views:scat-angle", f"scattering angles of path {name} are not signed_inc_angle(-1)", dict(setup=s_i, stage=stage, path=name))
 
 # ---- (a2') probe_element_width=None: ValueError iff the directivity is enabled -------------------
 for _ in range(3 if Q else 20):
